@@ -422,6 +422,62 @@ def gen_rec_mixed(rng, faults=True, n_max=9, **kw):
     return gen_rec(rng, faults=faults, n_max=n_max)
 
 
+_CORPUS = None
+
+
+def load_corpus():
+    """program shapes of the witnesses of repaired defects (known_findings/fixed_*.json): bug-adjacent shapes"""
+    global _CORPUS
+    if _CORPUS is None:
+        import glob
+        import json
+        import os
+        here = os.path.dirname(os.path.dirname(os.path.abspath(__file__)))
+        _CORPUS = []
+        for f in sorted(glob.glob(os.path.join(here, 'known_findings', 'fixed_*.json'))):
+            try:
+                spec = json.load(open(f))['case'].get('spec')
+            except Exception:  # noqa: BLE001
+                continue
+            if spec and spec.get('nodes') and len(spec['nodes']) >= 2:
+                _CORPUS.append(spec)
+    return _CORPUS
+
+
+def gen_corpus(rng, faults=True, n_max=10, **kw):
+    """a witness shape of a repaired defect with fresh modes, suspension points, values, labels and fault plans"""
+    import copy
+    corpus = load_corpus()
+    if not corpus:
+        return gen_plain(rng, faults=faults)
+    spec = copy.deepcopy(rng.choice(corpus))
+    nodes = spec['nodes']
+    keep_plans = rng.random() < 0.5
+    for n in nodes:
+        n.pop('generic', None)
+        if not keep_plans:
+            n.pop('plan', None)
+            n.pop('retry', None)
+        if n.get('value') in ('none', 'zero', 'empty', 'false') and rng.random() < 0.5:
+            n.pop('value')
+    assign_modes(rng, nodes)
+    for n in nodes:
+        v = n.get('value')
+        if isinstance(v, dict) and rng.random() < 0.4:
+            labs = list(v['labels'])
+            if rng.random() < 0.5 and len(labs) > 1:
+                labs.pop(rng.randrange(len(labs)))
+            else:
+                labs.append(rng.choice(['UNK', None, 0, 'L0', 'L1']))
+            n['value'] = {'labels': labs}
+    decorate_values(rng, spec, p_falsy=0.08)
+    if faults:
+        allow_base = not any(m[0] == 'OneOf' for n in nodes for _, m in n.get('params', ()))
+        decorate_faults(rng, spec, n_fault_nodes=rng.choice([0, 1, 1, 2]), allow_base=allow_base)
+    spec['class'] = 'corpus'
+    return spec
+
+
 def gen_input(rng):
     keys = rng.sample(['x', 'y', 'z'], rng.randint(1, 3))
     return {k: rng.choice([0, 1, 2, 3, 7, None, '', 'a', 'bc', -1]) for k in sorted(keys)}
@@ -807,6 +863,7 @@ def gen_hub(rng, faults=True, n_max=10, **kw):
 
 
 GENERATORS['hub'] = gen_hub
+GENERATORS['corpus'] = gen_corpus
 GENERATORS['rec_mixed'] = gen_rec_mixed
 GENERATORS['rec_inner'] = gen_rec_inner
 
